@@ -350,9 +350,9 @@ let main_exec () =
         (* the haystack hypothesis of the UTF-8 theorems: stepping right never overshoots the end *)
         if not (walk_ok ix_utf8 !hay (nat_of_int (List.length !hay + 2)) (nat_of_int !start)) then begin
           incr mism; Printf.printf "MISMATCH stage=haystack case=%s hay=%s start=%d detail=walk_ok:false\n" !cur_id hx !start end;
-        (* the text hypotheses of the optimizer theorems, at every position of an all-ASCII haystack (where every
-           position is a character boundary; on other text they hold at the boundaries only, see DESIGN) *)
-        if List.for_all (fun b -> int_of_n b < 128) !hay && not (text_ok_b ix_utf8 !hay) then begin
+        (* the text hypotheses of the optimizer theorems (OptTop.text_ok, through OptTextCheck.text_ok_b_sound), at
+           the character boundaries of this haystack *)
+        if not (text_ok_b ix_utf8 !hay) then begin
           incr mism; Printf.printf "MISMATCH stage=haystack case=%s hay=%s start=%d detail=text_ok:false\n" !cur_id hx !start end;
         (* ... and the prefilter hypothesis of the C04 theorem, for the start predicate of this program *)
         (match !hdr with
